@@ -38,7 +38,7 @@ def run(ctx):
     drv = ctx.go_build("btree")
     trace = ctx.work + "/btree.ndjson"
     #        nsmall nmedium nbig nlong nenum
-    args = [60, 25, 8, 20, 16] if ctx.thorough() else [14, 5, 2, 4, 1]
+    args = [60, 25, 6, 20, 16] if ctx.thorough() else [12, 4, 1, 3, 1]
     rc, out, summ = ctx.driver(drv, [trace] + args, timeout=900)
     if rc != 0:
         import vlib
@@ -51,7 +51,7 @@ def run(ctx):
     if ok and not ctx.violations:
         ixutil.corrupt_and_expect_rejection(
             ctx, "TraceOrdMap.tla", "TraceOrdMap.cfg", trace,
-            pick=lambda ev: ev.get("e") == "State" and len(ev.get("fwdo", [])) >= 2,
+            pick=lambda ev: ev.get("e") == "State" and 2 <= len(ev.get("fwdo", [])) and len(ev.get("look", [])) <= 40,
             mutate=lambda ev: ev["fwdo"].__setitem__(1, ev["fwdo"][1] + 1))
     ctx.assumptions += [
         "rank -> key table strictly monotone (asserted by the driver at scenario start); offsets logged as ids of a bijective id -> 40 bit offset table",
